@@ -207,6 +207,9 @@ def check(run):
         ok = bool(sets) and all(any('would_block' in q.render(f, a) and p for a, p in q.guards_at(f, fl.site)) for fl in sets)
         run.check(ok, 'R10', 'reader-parked-only-when-empty', fn_name, f.loc(), 'a read handler is parked on a path not guarded by would_block', 'parked only under ec == would_block (queue empty)')
 
+    flag_slot_agreement(run, T)
+    flag_slot_agreement(run, U)
+
     # ------------------------------------------------------------ tcp-connect
     run.clause('R10 tcp-connect: completing the connect on SYN-ACK resumes a write parked behind it')
     mv = [f for f in handlers.flows_in(fx, ip) if f.entity == 'field:' + T + '::m_connect_handler' and f.dest == 'post']
@@ -310,6 +313,43 @@ def check(run):
     run.ok('R4', 'drop-moves-callback-out', 'sim::queue::incoming_packet', qi.loc(), 'fact used above: the dropping hop moves drop_fun out of the packet before invoking it (%d site)' % len(mvd), nontrivial=False)
     run.floor('R10', 8)
     run.floor('R9', 5)
+
+
+def flag_slot_agreement(run, cls, rule='R10'):
+    """maybe_wakeup_reader chooses the slot to dispatch by m_recv_null_buffers; every store into a receive slot must
+    therefore set the flag to the matching value in the same block."""
+    fx = run.fx
+    want = {'m_recv_handler': False, 'm_wait_recv_handler': True}
+    n = 0
+    for fn in fx.repo_functions():
+        if fn.cls != cls or fn.cfg is None or fn.kind == 'ctor':
+            continue
+        for fl in handlers.flows_in(fx, fn):
+            d = fl.dest or ''
+            if not d.startswith('slot:' + cls + '::'):
+                continue
+            slot = d.split('::')[-1]
+            if slot not in want:
+                continue
+            n += 1
+            run.touch(fn)
+            b = fn.cfg.node_block(fl.site)
+            ok = False
+            for a in q.field_accesses(fn, {cls + '::m_recv_null_buffers'}):
+                if a.kind == 'assign' and fn.cfg.node_block(a.site) == b and q.strip_casts(a.site['rhs']).get('v') is want[slot]:
+                    ok = True
+            run.check(ok, rule, 'flag-slot-agreement', '%s: store into %s' % (fn.norm, slot), fn.loc(fl.node),
+                      'a handler is parked in %s without setting m_recv_null_buffers = %s alongside: maybe_wakeup_reader() picks the slot to complete by that flag, so after the reader switches between wait-for-read and read the parked operation is never completed'
+                      % (slot, str(want[slot]).lower()), 'm_recv_null_buffers = %s set in the same block' % str(want[slot]).lower())
+    if n < 2:
+        run.broke('%s: fewer than two receive-slot stores found' % cls)
+    wk = fx.fn1(cls + '::maybe_wakeup_reader')
+    disp = [c for c in wk.calls() if (q.callee_name(c) or '').startswith(cls + '::async_')]
+    for c in disp:
+        g = [(q.render(wk, a), p) for a, p in q.guards_at(wk, c)]
+        name = q.callee_name(c).split('::')[-1]
+        flag = ('m_recv_null_buffers', 'wait' in name)
+        run.check(flag in g, rule, 'dispatch-by-flag', '%s: %s' % (wk.norm, name), wk.loc(c), '%s is not selected by m_recv_null_buffers == %s' % (name, flag[1]), 'selected by the flag')
 
 
 def eval_queue_atom(fn, atom):
